@@ -184,6 +184,38 @@ pub fn worker(w: &mut Worker) {
             }
         }
     }
+    // the escape table: a backslash followed by each character of the alphabet, and `\$` followed by
+    // each character; only \\ \" \n \r \t and \${ are documented, everything else must be rejected
+    // with ControlWithoutValidValue at that line
+    let follow = ["a", "n", "r", "t", "\\", "\"", "$", "{", "}", " ", "#", "=", ":", "%", "q", "0", "é", ""];
+    for (pi, prefix) in ["cmd ", "cmd \"", "x = cmd a", ":l cmd b "].iter().enumerate() {
+        let in_quotes = pi == 1;
+        for dollar in [false, true] {
+            for c in follow {
+                for pos in 0..3usize {
+                    if !w.take() {
+                        continue;
+                    }
+                    let esc = if dollar { format!("\\${}", c) } else { format!("\\{}", c) };
+                    // what follows the escape keeps the line otherwise well-formed
+                    let tail = if in_quotes { "z\"" } else { "z" };
+                    let line = format!("{}{}{}", prefix, esc, tail);
+                    let valid = if dollar { c == "{" } else { matches!(c, "n" | "r" | "t" | "\\" | "\"") };
+                    let mut ls = vec!["echo before", "x = set 1", "echo after"];
+                    ls.insert(pos, &line);
+                    let text = ls.join("\n");
+                    if !dollar && c == "$" {
+                        // `\$z`: the dollar form with a non-brace follower, covered by dollar=true
+                        w.begin(|| json!({"kind": "escape-table", "text": text}));
+                        w.pass(false, 0);
+                        continue;
+                    }
+                    let planted: Vec<(usize, &'static str)> = if valid { vec![] } else { vec![(pos + 1, "ControlWithoutValidValue")] };
+                    run_text(w, &text, &planted, "escape-table");
+                }
+            }
+        }
+    }
     // two malformed lines: the reported error must be one of them
     for (k1, s1) in MALFORMED {
         for (k2, s2) in MALFORMED {
@@ -281,7 +313,7 @@ pub fn crash_sig(_case: &Value, kind: &str) -> String {
     kind.to_string()
 }
 
-pub const RULE: &str = "enumeration (no duplicates within a phase): planted malformed line (6 kinds x 4-5 spellings) at every position among every choice of well-formed lines (pool of 10), LF and CRLF; pairs of malformed lines; every sequence of tokens from a pool of 14; lines of 10^4 and 10^5 repeated characters of each class; every text up to the length bound over {a SP \" \\ # = : ! $ { LF CR} (+TAB, e-acute). Oracle: no panic; Ok => one instruction per line with line numbers 1..n, no source tag, blank/comment lines Empty, each line parses alone to the same instruction; Err(kind,k) => 1<=k<=n and line k alone is rejected with the same kind; planted error => that kind and line. Non-trivial: the text contains one of \" \\ # = : !; states = distinct (verdict, error kind, error line, line count) classes, transitions = parse_text calls on whole texts";
+pub const RULE: &str = "enumeration (no duplicates within a phase): planted malformed line (6 kinds x 4-5 spellings) at every position among every choice of well-formed lines (pool of 10), LF and CRLF; pairs of malformed lines; the escape table (a backslash, and a backslash-dollar, followed by each of 18 characters in 4 argument positions at every line position: only the documented escapes parse, all others are rejected with ControlWithoutValidValue); every sequence of tokens from a pool of 14; lines of 10^4 and 10^5 repeated characters of each class; every text up to the length bound over {a SP \" \\ # = : ! $ { LF CR} (+TAB, e-acute). Oracle: no panic; Ok => one instruction per line with line numbers 1..n, no source tag, blank/comment lines Empty, each line parses alone to the same instruction; Err(kind,k) => 1<=k<=n and line k alone is rejected with the same kind; planted error => that kind and line. Non-trivial: the text contains one of \" \\ # = : !; states = distinct (verdict, error kind, error line, line count) classes, transitions = parse_text calls on whole texts";
 pub const ASSUMPTIONS: &[&str] = &["no !include_files directive in the texts (C14 covers includes)"];
 pub const EXHAUSTIVE: bool = true;
 pub const WALL_CAP_S: (u64, u64) = (50, 1500);
